@@ -16,6 +16,11 @@ def make_connection(open_script, log, transports, consumers=3, default_ok=True):
         async def _open_connection(self):
             loop = asyncio.get_running_loop()
             ok = open_script.pop(0) if open_script else default_ok
+            if isinstance(ok, (list, tuple)) and ok and ok[0] == "slow":
+                # the open takes a few loop iterations (and then succeeds)
+                for _ in range(int(ok[1])):
+                    await asyncio.sleep(0)
+                ok = True
             log.append(["open", loop.time(), bool(ok)])
             if not ok:
                 raise OSError("scripted open failure")
